@@ -43,6 +43,23 @@ def gen_cases(seed, tier):
 
 
 def run_case(case):
+    first = _run_one(case)
+    if first["status"] != "ok" or case.get("kind", "gen") != "gen":
+        return first
+    # a second solver of the same shapes (same problem name, state count, vector dimension, batch layout) but
+    # another problem, built afterwards in the same process
+    second = _run_one(common.sibling_case(case, nsweeps=3))
+    if second["status"] != "ok":
+        if "detail" in second:
+            second["detail"] = "[second solver of the same shapes built in this process] " + second["detail"]
+        return second
+    first["n_obs"] += second["n_obs"]
+    first["perms"] += second["perms"]
+    first["siblings"] = 1
+    return first
+
+
+def _run_one(case):
     import jax.numpy as jnp
 
     from vf import target
@@ -62,15 +79,19 @@ def run_case(case):
     judged = 0
     sweeps_total = 0
     for k in range(case["nsweeps"]):
-        if k % 4 == 1:
+        if k == 0:
+            # the first sweep starts from what the solver itself took from problem.initial_value (any dtype)
+            V = np.zeros(S) if t.get("init") is None else np.asarray(t["init"], dtype=float)
+        elif k % 4 == 1:
             V = np.zeros(S)
             V[int(r.integers(0, S))] = 3.0 * scale
         elif k % 4 == 3 and vstar is not None:
             V = vstar.copy()
         else:
             V = r.normal(size=S) * scale * float(10.0 ** r.integers(-1, 3))
-        s.values = jnp.asarray(V)
-        twin.values = jnp.asarray(V)
+        if k > 0:
+            s.values = jnp.asarray(V)
+            twin.values = jnp.asarray(V)
         nsw = [1, 1, 2, 3][k % 4]          # some steps run several sweeps inside ONE solve() call
         n_before = len(getattr(s, "_verif_sweep_orders", None) or [])
         res = target.solve(s, nsw)
